@@ -50,7 +50,7 @@ if os.environ.get("PHYCLONE_VERIF") == "1":
                 waits = _cfg.get("finish_after", {}).get(str(chain))
                 if waits and _chain_log:
                     # logical ordering instead of a wall-clock guess: wait until the named chains have finished
-                    deadline = time.monotonic() + 300
+                    deadline = time.monotonic() + 900
                     while time.monotonic() < deadline:
                         try:
                             done = set(l.split()[0] for l in open(_chain_log) if l.split()[1:2] == ["finish"])
